@@ -265,6 +265,8 @@ def cname(k):
         if k not in _CANDS:
             _CANDS[k] = Cand(k)
         return _CANDS[k]
+    if LABEL_MODE[0] == 'fsets':      # a joint ticket: the label is itself a (frozen) set
+        return frozenset(('t%d' % k, 'u%d' % k))
     return NAMES[k - 1] if k <= len(NAMES) else 'X%d' % k
 
 
@@ -273,6 +275,8 @@ def cnum(name):
         return name + 1
     if isinstance(name, Cand):
         return name.k
+    if isinstance(name, frozenset) and len(name) == 2 and LABEL_MODE[0] == 'fsets':
+        return int(sorted(name)[0][1:])
     if name in NAMES:
         return NAMES.index(name) + 1
     return int(name[1:])
